@@ -729,11 +729,24 @@ func lexBlankNode(l *lexer) stateFn {
 	return lexSpace
 }
 
+// indexLiteralType returns the index of the first `"^^type:` marker in the text,
+// whatever the letter case of `type`, or -1 if there is none.
+func indexLiteralType(text string) int {
+	const marker = "\"^^type:"
+	for i := 0; i+len(marker) <= len(text); i++ {
+		if text[i] == marker[0] && strings.EqualFold(text[i:i+len(marker)], marker) {
+			return i
+		}
+	}
+	return -1
+}
+
 // lexPredicateOrLiteral tries to lex a predicate or a literal out of the input.
 func lexPredicateOrLiteral(l *lexer) stateFn {
 	text := l.input[l.pos:]
 	// Fix issue 39 (https://github.com/google/badwolf/issues/39)
-	pIdx, lIdx := strings.Index(text, "\"@["), strings.Index(text, "\"^^type:")
+	// The literal type marker is matched regardless of letter case, as lexLiteral does.
+	pIdx, lIdx := strings.Index(text, "\"@["), indexLiteralType(text)
 	if pIdx < 0 && lIdx < 0 {
 		l.emitError("failed to parse predicate or literal for opening \" delimiter")
 		return nil
